@@ -24,9 +24,10 @@ fn gen_av(rng: &mut Rng, d: usize) -> AV {
         _ => {
             let n = rng.below(4);
             let name = if rng.chance(1, 2) { Some(rng.pick(&["A", "B", "Cons", "Str"]).to_string()) } else { None };
-            let labelled = rng.chance(1, 3);
+            // all fields labelled, none, or a mixture (labels then sit at some positions only)
+            let labelling = rng.below(4);
             if name.as_deref() == Some("Str") { return AV::Tup(name, vec![(None, AV::Bin(vec![97, 98]))]); }
-            let f: Vec<(Option<String>, AV)> = (0..n).map(|i| (if labelled { Some(["x", "y", "z"][i].to_string()) } else { None }, gen_av(rng, d - 1))).collect();
+            let f: Vec<(Option<String>, AV)> = (0..n).map(|i| (if labelling == 0 || (labelling == 1 && rng.chance(1, 2)) { Some(["x", "y", "z"][i].to_string()) } else { None }, gen_av(rng, d - 1))).collect();
             // nil itself (the empty unnamed tuple) only below the top: at the top it would make `va = []` steps and verdicts ambiguous
             if name.is_none() && f.is_empty() && d == 3 { AV::Tup(Some("Nil".into()), vec![]) } else { AV::Tup(name, f) }
         }
@@ -39,7 +40,12 @@ fn perturb(v: &AV, rng: &mut Rng) -> AV {
         AV::Int(i) => AV::Int(i + if rng.chance(1, 2) { 1 } else { -1 }),
         AV::Bin(b) => { let mut b = b.clone(); match rng.below(3) { 0 if !b.is_empty() => { let k = rng.below(b.len()); b[k] ^= 1; } 1 if !b.is_empty() => { b.pop(); } _ => b.push(0) } AV::Bin(b) }
         AV::Tup(n, f) => {
-            match rng.below(4) {
+            match rng.below(5) {
+                4 if f.len() >= 2 && f.iter().any(|(l, _)| l.is_some()) && f.iter().any(|(l, _)| l.is_none()) => {
+                    // the same values in the same order, one label moved to a position that had none
+                    let mut f = f.clone(); let from = f.iter().position(|(l, _)| l.is_some()).unwrap(); let to = f.iter().position(|(l, _)| l.is_none()).unwrap();
+                    let l = f[from].0.take(); f[to].0 = l; AV::Tup(n.clone(), f)
+                }
                 0 if !f.is_empty() => { let k = rng.below(f.len()); let mut f = f.clone(); f[k].1 = perturb(&f[k].1, rng); AV::Tup(n.clone(), f) }
                 1 => AV::Tup(Some(match n.as_deref() { Some("A") => "B".into(), _ => "A".to_string() }), f.clone()),
                 2 if !f.is_empty() => { let mut f = f.clone(); let k = rng.below(f.len()); f[k].0 = match &f[k].0 { Some(l) if l == "x" => Some("w".into()), Some(_) => Some("x".into()), None => Some("x".into()) }; if f.iter().filter(|(l, _)| l.as_deref() == Some("x")).count() > 1 { f[k].0 = Some("q".into()); } AV::Tup(n.clone(), f) }
